@@ -27,7 +27,7 @@ def configs(task="detection", targets=("car", "pedestrian", "bicycle", "unknown"
 
 
 def frame_result(est, gt, ego=None, task="detection", targets=("car", "pedestrian", "bicycle", "unknown"), crit=None, pass_thr=None,
-                 policy="DEFAULT", matching_mode="Center Distance", metrics=None, frame_name="0", unix_time=0, previous=None, evaluate=True):
+                 policy="DEFAULT", matching_mode="Center Distance", metrics=None, frame_name="0", unix_time=0, previous=None, evaluate=True, registry=True):
     """est/gt: lists of object descriptions (build.obj3d); ego: None (objects in base_link) or ego pose dict (objects may be in map)"""
     from perception_eval.common.dataset import FrameGroundTruth
     from perception_eval.evaluation.matching.object_matching import MatchingMode, MatchingLabelPolicy
@@ -36,7 +36,8 @@ def frame_result(est, gt, ego=None, task="detection", targets=("car", "pedestria
     et, cof, pfc, msc = configs(task, targets, crit, pass_thr, metrics)
     eo = [build.obj3d(d) for d in est]
     go = [build.obj3d(d) for d in gt]
-    fgt = FrameGroundTruth(unix_time, frame_name, go, transforms=build.ego_matrix(ego))
+    # registry=False: an ego-frame frame built without any transform (FrameGroundTruth then carries an EMPTY registry, not None)
+    fgt = FrameGroundTruth(unix_time, frame_name, go, transforms=build.ego_matrix(ego) if (registry or ego is not None) else None)
     tf = fgt.transforms
     res = get_object_results(et, eo, go, target_labels=cof.target_labels, matching_label_policy=MatchingLabelPolicy(policy),
                              matching_mode=MatchingMode(matching_mode), transforms=tf)
